@@ -158,6 +158,39 @@ def silence_previous_note(ctx, rule):
     ctx.ob(rule, fi, fn, False, why, construct='silence is measured from an order-insensitive reduction of the earlier ends', unknown=why)
 
 
+def assumes_sorted(ctx, fi, o, rule):
+  """heapq.merge and the bisect functions are only correct on inputs that are already sorted.  An argument whose order is the order
+  in which events are stored (a repeated field, or a list filled while walking one) is sorted only if the caller happened to store
+  its events that way: on the others the merged stream goes backwards in time / the search lands anywhere.  Shared with the
+  properties whose functions consume such a stream (C02, C11, C14)."""
+  n = 0
+  for c in U.calls_in(fi.node):
+    d = dotted(c.func) or ''
+    if d not in ordr.ORDER_ASSUMING:
+      continue
+    seqs = c.args if d == 'heapq.merge' else c.args[:1]
+    for a in seqs:
+      p = o.prov(a.value if isinstance(a, ast.Starred) else a, c)
+      n += 1
+      if p.kind in ('STORAGE', 'BADSORT'):
+        unk = p.detail if p.detail.startswith(ordr.UNK) else None
+        ctx.ob(rule, fi, c, False, '%s is handed to %s, which %s; its order is the storage order (%s): with events stored out of time order the result depends on - and is wrong for - that '
+               'order' % (norm_text(a)[:50], d, ordr.ORDER_ASSUMING[d], p.detail), construct='%s(%s)' % (d, norm_text(a)[:40]), definite=unk is None, unknown=unk)
+      else:
+        ctx.ob(rule, fi, c, True, '%s: %s is %s' % (d, norm_text(a)[:40], p.detail or 'not in storage order'), construct='%s(%s)' % (d, norm_text(a)[:40]))
+  return n
+
+
+def assumes_sorted_in(ctx, names, rule='ORD/assumes-sorted'):
+  """assumes_sorted for the scope functions with the given names (used by the properties those functions are anchored in)."""
+  for fq, params in SCOPE:
+    if fq.split(':')[1] in names:
+      fi = ctx.func(fq)
+      o = ordr.FuncORD(fi, [p for p in params if p in fi.params()])
+      o.run()
+      assumes_sorted(ctx, fi, o, rule)
+
+
 def run(ctx):
   silence_previous_note(ctx, 'ORD/ties/silence-previous-note')
   scope_fq = set(f for f, _p in SCOPE)
@@ -197,6 +230,7 @@ def run(ctx):
                  construct='%s over %s' % (d, norm_text(c.args[1])), definite=unk is None, unknown=unk)
         else:
           ctx.ob('ORD/stored-prefix', fi, c, True, '%s runs over %s' % (d, p.detail or 'a sequence that is not in storage order'), construct='%s over %s' % (d, norm_text(c.args[1])))
+    assumes_sorted(ctx, fi, o, 'ORD/assumes-sorted')
     for s in sites:
       if s.kind == 'sorted-traversal':
         ctx.ob('ORD/sorted-traversal', fi, s.stmt, True, 'iterates %s' % s.prov.detail, construct=s.what)
